@@ -300,6 +300,9 @@ pub fn c08_run(ctx: &Ctx) -> i32 {
     let cases = ctx.budget(400_000, 6_000_000);
     let out = run_sharded(ctx, "C08", cases, || raw_text(C08_FAMILIES), c08_test);
     rep.absorb("E1-proptest", out);
+    if ctx.tier == Tier::Thorough {
+        crate::fuzzrun::run_into(ctx, &mut rep, crate::fuzzrun::Campaign { target: "text_frontend", prop: "C08", runs_total: (ctx.scale * 2_000_000.0) as u64, max_len: 2048, seeds: crate::fuzzrun::text_seeds(), dict: true });
+    }
     quota_check(&mut rep, &["ref:lexically-valid", "ref:lex-error:malformed attribute", "ref:lex-error:reserved word after dollar", "ref:lex-error:unknown character", "text:has-multibyte"]);
     rep.finish()
 }
@@ -445,6 +448,9 @@ pub fn c09_run(ctx: &Ctx) -> i32 {
     let cases = ctx.budget(250_000, 4_000_000);
     let out = run_sharded(ctx, "C09", cases, || raw_text(C09_FAMILIES), c09_test);
     rep.absorb("E1-proptest", out);
+    if ctx.tier == Tier::Thorough {
+        crate::fuzzrun::run_into(ctx, &mut rep, crate::fuzzrun::Campaign { target: "text_frontend", prop: "C09", runs_total: (ctx.scale * 2_000_000.0) as u64, max_len: 2048, seeds: crate::fuzzrun::text_seeds(), dict: true });
+    }
     quota_check(&mut rep, &["ref:accept", "ref:bad-token", "ref:unexpected-eof"]);
     rep.finish()
 }
@@ -879,6 +885,9 @@ pub fn c10_run(ctx: &Ctx) -> i32 {
     let cases = ctx.budget(300_000, 5_000_000);
     let out = run_sharded(ctx, "C10", cases, raw_c10, c10_test);
     rep.absorb("E1-proptest", out);
+    if ctx.tier == Tier::Thorough {
+        crate::fuzzrun::run_into(ctx, &mut rep, crate::fuzzrun::Campaign { target: "text_frontend", prop: "C10", runs_total: (ctx.scale * 2_000_000.0) as u64, max_len: 2048, seeds: crate::fuzzrun::text_seeds(), dict: true });
+    }
     quota_check(
         &mut rep,
         &[
@@ -1089,6 +1098,9 @@ pub fn c16_run(ctx: &Ctx) -> i32 {
     let cases = ctx.budget(150_000, 3_000_000);
     let out = run_sharded(ctx, "C16", cases, raw_c16, c16_test);
     rep.absorb("E1-proptest", out);
+    if ctx.tier == Tier::Thorough {
+        crate::fuzzrun::run_into(ctx, &mut rep, crate::fuzzrun::Campaign { target: "text_frontend", prop: "C16", runs_total: (ctx.scale * 2_000_000.0) as u64, max_len: 2048, seeds: crate::fuzzrun::text_seeds(), dict: true });
+    }
     quota_check(&mut rep, &["outcome:ok", "outcome:lex-error", "outcome:parse-error", "outcome:validation-error", "outcome:table-conflict"]);
     rep.finish()
 }
